@@ -7,7 +7,13 @@ every yielded `Select` is answered honestly (readable = a scripted socket that h
 EOF, writable = everything in the write list).  Three connections: #1 is hostile, #0 and #2 carry
 valid traffic.  The hostile byte stream is a valid instance of every OpenFlow 1.0 message type
 (spec-encoded bytes from mc/refs, never produced by libopenflow) with exactly one field corrupted,
-placed first / before / between / after valid traffic.
+placed first / before / between / after valid traffic.  A second group corrupts one field (xid, version,
+length, type) of each message of the HANDSHAKE itself after a valid prefix (e.g. HELLO, FEATURES_REPLY,
+then a BARRIER_REPLY with a wrong xid) and adds the environment faults that make the controller give a
+connection up mid-handshake (no nexus for the datapath, n-th send fails with EPIPE).  Sockets are
+faithful where the loops can tell: after shutdown(RD/RDWR) a socket is readable and recv() gives b'',
+a closed socket has fileno() -1 and a select set containing one makes select raise ValueError (the
+select hub dies: counted as loop death).
 
 Oracle (DESIGN.md C10): (1) every step into the generator returns within a line budget; (2) the
 generator stays alive and keeps selecting on the siblings; (3) each sibling is delivered exactly its
@@ -931,14 +937,19 @@ def run (cfg):
               "0..255, version in %r, every embedded length field (actions_len, action len, flow-stats entry length, queue len, "
               "queue-prop len) in %r, every truncation point followed by EOF or by valid messages, and the unmodified instance; "
               "placed first / before / between / after valid traffic on hostile connection #1, delivered in one recv or in "
-              "separate recvs, with two sibling connections exchanging valid messages in the same select rounds%s. distinct = "
+              "separate recvs, with two sibling connections exchanging valid messages in the same select rounds; plus, for every "
+              "message of the handshake itself (controller: HELLO, FEATURES_REPLY, BARRIER_REPLY; switch: HELLO, FEATURES_REQUEST, "
+              "SET_CONFIG, BARRIER_REQUEST) after its valid prefix: xid xor {1, 2^31, 2^32-1}, version, every header length "
+              "0..len+8, every type byte, and the environment faults no-nexus-for-dpid and EPIPE on the n-th send (n = 0..6)%s. distinct = "
               "(side, message class, field class, position, chunking, deliveries/errors/closed/logged exceptions, verdict)"
               % (len(insts), VERSIONS, EMB_VALUES,
                  " (quick tier reductions: the full type sweep 0..255 only at 'between' in one recv, type values 0..23,0x7f,0x80,0xfe,0xff at every "
-                 "position in one recv; position 'before' only in one recv; truncation+EOF as the first bytes only for cut points <= 12; "
+                 "position in one recv (handshake group: these type values and lengths < 10 or within 8 of the valid one); position 'before' only in one recv; truncation+EOF as the first bytes only for cut points <= 12; "
                  "the 1068-byte desc stats reply only with lengths / cut points within 24 bytes of its start or 16 of its end)" if quick else ""))
   rep.bound = dict(connections=3, hostile=1, corruptions_per_stream=1, line_budget_per_step=BUDGET, select_rounds_per_step=MAXIT)
-  rep.assumptions = ["select is answered honestly: readable = scripted socket with pending bytes/EOF, sockets always writable",
+  rep.assumptions = ["select is answered honestly: readable = scripted socket with pending bytes/EOF or shut down for reading, sockets "
+                     "always writable; a select set containing a closed socket (fileno() -1) raises ValueError = the loop is dead",
+                     "every sibling echo request must be answered with the same xid and body",
                      "one corrupted field per hostile stream; segmentation is per piece or one chunk (C02 covers segmentation)",
                      "switch side 'closed' means worker.closed or shutdown requested (OFConnection.close only requests shutdown)",
                      "well-formed messages of the wrong direction and HELLO with a foreign version are unconstrained on the hostile connection"]
